@@ -22,6 +22,23 @@ use libp2p_swarm::{
 };
 use tracing::trace;
 
+/// Records what a sink / stream / timer answered (verification hook, see `verif::probe`).
+#[cfg(beetswap_verif)]
+macro_rules! vprobe {
+    ($tag:expr, $e:expr) => {{
+        let r = $e;
+        crate::verif::probe::result($tag, &r);
+        r
+    }};
+}
+
+#[cfg(not(beetswap_verif))]
+macro_rules! vprobe {
+    ($tag:expr, $e:expr) => {
+        $e
+    };
+}
+
 mod builder;
 mod cid_prefix;
 mod client;
